@@ -49,7 +49,8 @@ def generate(rng, tier, index):
     if not local:
         mask.add("cli")
     kinds = [k for k in kinds if k not in mask]
-    spellings = {"local": ["plain", "file", "slash"], "file": ["plain", "bare", "slash"],
+    spellings = {"local": ["plain", "file", "slash", "relative"],
+                 "file": ["plain", "bare", "slash", "relative"],
                  "simfs": ["plain", "slash"], "simfs_opt": ["plain", "slash"]}[wp["backend"]]
     ops = []
     for step in range(rng.randint(3, 10 if tier == "quick" else 14)):
